@@ -46,17 +46,55 @@ def arch_units(arch):
     return ["%s.%s" % (arch, f) for f in ("TrailingZeroes", "LeadingZeroes", "CountOnes", "PrefixXor")]
 
 ARCHS = (("avx2", "VEC_LEN=32"), ("sse", "VEC_LEN=16"))
+ESC = ["GetEscaped_16", "GetEscaped_32", "GetEscaped_64"]
+SKIP_LEAVES = ["GetNextToken_3", "GetNextToken_4", "SkipString", "GetStringBits", "SkipContainer", "EqBytes4", "SkipLiteral"]
+# pointer arithmetic one-past-the-end in a comparison that is never dereferenced: reported as an observation (DESIGN section 3)
+OBS_SKIPLITERAL = [(r"pointer (relation|arithmetic): pointer outside object bounds in start \+", "SkipLiteral")]
 C11_JOBS = []
 for arch, vdef in ARCHS:
     base = arch_units(arch) + ["IsSpace", arch + ".GetNonSpaceBits", "skip_space_safe"]
+    sk = arch_units(arch) + ["IsSpace"] + ESC + SKIP_LEAVES
     C11_JOBS.append(dict(
         id="C11.GetNonSpaceBits@" + arch, src="c11_space.c", harness="h_GetNonSpaceBits", units=base, defs=[vdef], arch=arch,
         route="L", function="GetNonSpaceBits", enforce="GetNonSpaceBits", unwind=65,
         claims="64 symbolic bytes: bit i set iff byte i is not RFC 8259 whitespace (ghost index); reads exactly 64 bytes"))
+    for n in (3, 4):
+        C11_JOBS.append(dict(
+            id="C11.GetNextToken_%d@%s" % (n, arch), src="c11_skip.c", harness="h_GetNextToken_%d" % n, units=sk,
+            defs=[vdef, "UNIT_GetNextToken"], arch=arch, route="U", function="GetNextToken<%d>" % n, enforce="GetNextToken_%d" % n,
+            unwindset="GetNextToken_%d.0:%d,GetNextToken_%d.2:%d" % (n, n, n, n), loop_contracts=True, expect_loops=2, timeout=900,
+            claims="any len, any pos<=len: reads stay inside the input; pos monotone <= len; returns the first token byte at/after pos (ghost index) or 0 with pos'=len"))
+    C11_JOBS.append(dict(
+        id="C11.SkipString@" + arch, src="c11_skip.c", harness="h_SkipString", units=sk, defs=[vdef, "UNIT_SkipString"], arch=arch,
+        route="U", function="SkipString", enforce="SkipString", loop_contracts=True, expect_loops=2, timeout=900,
+        claims="any len, any pos<=len: reads stay inside the input; success => pos' <= len and data[pos'-1] is a quote; failure => pos' <= len+1"))
+    C11_JOBS.append(dict(
+        id="C11.GetStringBits@" + arch, src="c11_skip.c", harness="h_GetStringBits", units=sk, defs=[vdef, "UNIT_SkipContainer"], arch=arch,
+        route="L", function="GetStringBits", enforce="GetStringBits",
+        claims="reads exactly 64 bytes; writes only the two carried state words"))
 C11_JOBS.append(dict(
     id="C11.skip_space_safe", src="c11_space.c", harness="h_skip_space_safe", units=arch_units("avx2") + ["IsSpace", "avx2.GetNonSpaceBits", "skip_space_safe"],
     defs=["VEC_LEN=32"], arch="avx2", route="U", function="skip_space_safe", enforce="skip_space_safe", replace=["GetNonSpaceBits"],
     loop_contracts=True, expect_loops=2, cbmc_unwindset="skip_space_safe_wrapped_for_contract_checking.0:2", timeout=900, replay="skip_space_safe",
     claims="any len<=2^31-1 incl. 0, any pos<=len, any well-formed cache: reads stay in [data,data+len); pos monotone, pos'<=len; skipped bytes are whitespace; returned byte is the first non-space; cache stays consistent (shared body: identical for both arches)"))
+C11_JOBS.append(dict(
+    id="C11.SkipLiteral", src="c11_skip.c", harness="h_SkipLiteral", units=arch_units("avx2") + ["IsSpace"] + ESC + SKIP_LEAVES,
+    defs=["VEC_LEN=32", "UNIT_SkipLiteral"], arch="avx2", route="L", function="SkipLiteral+EqBytes4", enforce="SkipLiteral",
+    claims="any len, 1<=pos<=len: the 4-byte compare reads only inside the input (memcpy source region readable); pos' <= len; advance 3 (true/null) or 4 (false). Pointer checks are off inside SkipLiteral itself (it only forms and compares start+4/start+5, see observation job)"))
+C11_JOBS.append(dict(
+    id="C11.SkipLiteral.observe", src="c11_skip.c", harness="h_SkipLiteral", units=arch_units("avx2") + ["IsSpace"] + ESC + SKIP_LEAVES,
+    defs=["VEC_LEN=32", "UNIT_SkipLiteral", "OBSERVE_ALL"], arch="avx2", route="O", function="SkipLiteral", enforce="SkipLiteral", observe=OBS_SKIPLITERAL,
+    claims="observation only: with all checks on, CBMC flags start+4/start+5 as pointers past one-past-the-end (compared, never dereferenced)"))
+SCANNER_UNITS = arch_units("avx2") + ["IsSpace"] + ESC + SKIP_LEAVES + ["skip_space_safe", "SkipArray", "SkipObject", "SkipNumber",
+    "SkipScanner.fields", "SkipScanner.SkipSpaceSafe", "SkipScanner.GetArrayElem", "SkipScanner.SkipOne"]
+CALLEES = ["skip_space_safe", "GetNextToken_3", "GetNextToken_4", "SkipString", "SkipContainer", "SkipLiteral"]
+C11_JOBS.append(dict(
+    id="C11.SkipScanner.SkipOne", src="c11_scanner.c", harness="h_SkipOne", units=SCANNER_UNITS, defs=["VEC_LEN=32"], arch="avx2",
+    route="L", function="SkipScanner::SkipOne (+SkipArray/SkipObject/SkipNumber/SkipSpaceSafe)", enforce="SkipScanner_SkipOne", replace=CALLEES, object_bits=12,
+    claims="against callee contracts: every callee precondition holds at its call site; result >= 0 => start < pos' <= len (slice inside the input); scanner state stays well-formed"))
+C11_JOBS.append(dict(
+    id="C11.SkipScanner.GetArrayElem", src="c11_scanner.c", harness="h_GetArrayElem", units=SCANNER_UNITS, defs=["VEC_LEN=32"], arch="avx2",
+    route="U", function="SkipScanner::GetArrayElem", enforce="SkipScanner_GetArrayElem", replace=CALLEES, loop_contracts=True, expect_loops=1, object_bits=12,
+    claims="against callee contracts, any index: callee preconditions hold; pos monotone; success => pos' <= len; scanner state stays well-formed"))
 PROPS["C11"] = dict(
     level="other", jobs=C11_JOBS, trusted_base=COMMON_TRUST + MODEL_TRUST, assumptions=[], undecided=[], explanation="")
